@@ -20,11 +20,17 @@ RULE = ("history explorer (BFS): every word over the write alphabet up to the de
         "after every write the dense tensor, the sparse tensor and the reference array (growable, zero padded, F-ordered) "
         "are compared entry by entry, and on every distinct reached state every read of the read alphabet is checked.  "
         "A state violating the invariant is reported and not expanded.  States are de-duplicated on the concrete pair "
-        "state.  Non-trivial: a reached state with at least one non-zero entry.")
+        "state.  Slices carry all three components (start, stop, step): unit-step, stepped (::2, 0:3:2), reversed (::-1) "
+        "and relative-bound (-1:, :-1) slices occur in the write alphabet and in the region reads.  "
+        "Non-trivial: a reached state with at least one non-zero entry.")
 ASSUMPTIONS = ["reference = mc/props/C04.py RefArr (rectangular regions = Cartesian product, negative indices relative to the "
                "current extent, growth by zero padding, first index fastest)",
                "linear-index assignment is documented as unsupported for sptensor (N>1): the sparse object receives the "
                "equivalent subscript assignment for such labels",
+               "slices follow Python semantics on the CURRENT extent (negative bounds relative to it); a write through a stepped "
+               "slice is enabled only if its stop is within the extent or equals the last selected position + 1 (the statement "
+               "does not fix how far a write that selects no position beyond the extent would grow the mode); reversed and "
+               "relative-bound slices are enabled on existing modes only",
                "array right-hand sides only with int/slice keys (NumPy places list-indexed modes differently; shapes of "
                "list-keyed region reads are compared on values and on the extents of the kept modes)"]
 BOUNDS = {}
@@ -40,6 +46,50 @@ CHUNK = 4
 
 class Disabled(Exception):
     """Label not defined in the reference for this state (not part of the enabled alphabet)."""
+
+
+def _slice_positions(it, ext, new_mode, for_write):
+    """Positions selected by the slice item ["s", start, stop(, step)] in a mode of current extent `ext`, in slice order,
+    and the extent the mode must have afterwards.  Python slice semantics; negative bounds are relative to the current
+    extent.  Disabled (outside the enabled alphabet): an empty selection, a read beyond the extent, an unbounded or
+    negative-relative or reversed slice on a mode that does not exist yet, and a stepped slice whose stop lies beyond
+    both the extent and the last selected position (the statement does not say how far such a write grows the mode)."""
+    a, b = it[1], it[2]
+    st = it[3] if len(it) > 3 and it[3] is not None else 1
+
+    def rel(x):
+        if x is None or x >= 0:
+            return x
+        if new_mode or -x > ext:
+            raise Disabled()
+        return ext + x
+
+    a, b = rel(a), rel(b)
+    if st > 0:
+        if b is None:
+            if new_mode:
+                raise Disabled()        # unbounded slice on a new mode: sparse class documents rejection
+            stop = ext
+        else:
+            stop = b
+            if not for_write and b > ext:
+                raise Disabled()
+        start = 0 if a is None else a
+        idx = list(range(start, stop, st))
+        if not idx:
+            raise Disabled()
+        if st > 1 and stop > ext and idx[-1] + 1 != stop:
+            raise Disabled()
+        return idx, max(ext, stop)
+    if new_mode:
+        raise Disabled()
+    start = ext - 1 if a is None else a
+    if start >= ext:
+        raise Disabled()
+    idx = list(range(start, -1 if b is None else b, st))
+    if not idx:
+        raise Disabled()
+    return idx, ext
 
 
 class RefArr:
@@ -84,20 +134,9 @@ class RefArr:
                 sets.append([it])
                 kept.append(False)
             elif it[0] == "s":
-                a, b = it[1], it[2]
-                if b is None:
-                    if n >= N:
-                        raise Disabled()        # unbounded slice on a new mode: sparse class documents rejection
-                    stop = ext
-                else:
-                    stop = b
-                    if not for_write and b > ext:
-                        raise Disabled()
-                start = 0 if a is None else a
-                if start >= stop:
-                    raise Disabled()
-                need.append(max(ext, stop))
-                sets.append(list(range(start, stop)))
+                idx, nd = _slice_positions(it, ext, n >= N, for_write)
+                need.append(nd)
+                sets.append(idx)
                 kept.append(True)
             else:
                 lst = list(it[1])
@@ -169,8 +208,8 @@ def arr_vals(n):
 # alphabet
 
 
-def S_(a, b):
-    return ["s", a, b]
+def S_(a, b, step=None):
+    return ["s", a, b] if step is None else ["s", a, b, step]
 
 
 def L_(*xs):
@@ -205,6 +244,10 @@ def alphabet(N, tier):
             [L_(0, 1), S_(None, None)], [S_(None, None), L_(2, 0)], [0, L_(0, 1)], [L_(1), S_(0, 2)],
             [L_(0, 1), L_(0, 1)], [L_(0, 2), L_(1, 0)],
             [0, S_(0, 2), S_(0, 2)], [S_(0, 1), S_(0, 1), S_(1, 2)], [1, 0, L_(0, 1)],
+            # slices with a step (forward, bounded incl. growth to the last selected position, reversed) and with
+            # negative (relative) bounds
+            [S_(None, None, 2), S_(None, None)], [1, S_(0, 3, 2)], [S_(None, None, -1), 0],
+            [S_(-1, None), S_(None, -1)],
         ]
     else:
         keys = [
@@ -212,6 +255,8 @@ def alphabet(N, tier):
             [S_(0, 2), 0, S_(0, 2)], [S_(0, 1), S_(0, 2), S_(1, 2)], [1, S_(None, None), 0], [2, 0, S_(None, None)],
             [L_(0, 1), 0, S_(None, None)], [S_(None, None), S_(None, None), L_(1, 0)], [L_(0, 1), 0, L_(0, 1)],
             [-1, S_(None, None), -1],
+            [S_(None, None, 2), 0, S_(None, None)], [S_(None, None), S_(None, None, -1), S_(0, 3, 2)],
+            [S_(-1, None), 0, S_(None, -1)],
         ]
     for k in keys:
         for rhs in (0.0, A_, "arr", "ten"):
@@ -325,7 +370,7 @@ def _pykey(key):
         if isinstance(it, int):
             out.append(it)
         elif it[0] == "s":
-            out.append(slice(it[1], it[2]))
+            out.append(slice(it[1], it[2], it[3] if len(it) > 3 else None))
         else:
             out.append(list(it[1]))
     return tuple(out)
@@ -407,7 +452,12 @@ def describe(lab):
             if isinstance(it, int):
                 forms.add("neg" if it < 0 else "int")
             elif it[0] == "s":
-                forms.add("slice" if it[2] is not None else "uslice")
+                if len(it) > 3 and it[3] is not None:
+                    forms.add("step")
+                elif (it[1] is not None and it[1] < 0) or (it[2] is not None and it[2] < 0):
+                    forms.add("relslice")
+                else:
+                    forms.add("slice" if it[2] is not None else "uslice")
             else:
                 forms.add("list")
                 nl += 1
@@ -504,21 +554,34 @@ def build(hist, ctx=None):
 
 
 def read_keys(shape, full=None):
+    """Region-read alphabet.  thorough: the full product of every key form per mode.  quick: the full product of the
+    unit-step forms, plus every stepped / reversed / relative-bound slice form in every mode it is assigned to, combined
+    with the two basic forms (full slice, integer) of the other modes, plus the all-stepped key."""
     N = len(shape)
-    per_mode = []
+    per_mode, extra = [], []
     full = (TIER == "thorough") if full is None else full
     for m, s in enumerate(shape):
         if full:
-            items = [0, -1, S_(None, None), S_(0, 1)]
+            items = [0, -1, S_(None, None), S_(0, 1), S_(None, None, 2), S_(None, None, -1), S_(-1, None)]
             if s >= 2:
                 items += [1, S_(1, None), L_(0, s - 1), L_(s - 1, 0)]
             else:
                 items += [L_(0)]
+            extra.append([])
         else:   # quick: every key form once per mode (int, negative int, unbounded / bounded slice, index list)
             items = [0, S_(None, None), S_(0, 1)] + ([-1] if m == 0 else [])
             items += [L_(s - 1, 0)] if s >= 2 else [L_(0)]
+            # stepped slice in every mode; reversed slice on the first, relative (negative) bound on the second mode
+            extra.append([S_(None, None, 2)] + ([S_(None, None, -1)] if m == 0 else []) + ([S_(-1, None)] if m == 1 else []))
         per_mode.append(items)
-    return [list(k) for k in itertools.product(*per_mode)]
+    keys = [list(k) for k in itertools.product(*per_mode)]
+    for m in range(N):
+        for it in extra[m]:
+            for rest in itertools.product([S_(None, None), 0], repeat=N - 1):
+                keys.append(list(rest[:m]) + [it] + list(rest[m:]))
+    if not full and N >= 2:
+        keys.append([S_(None, None, 2) for _ in range(N)])
+    return keys
 
 
 def check_reads(ctx, hist, T, S, R):
@@ -529,6 +592,14 @@ def check_reads(ctx, hist, T, S, R):
     cl = rm.cells(shape)
     n = len(cl)
     allsubs = np.array(cl, dtype=int).reshape(n, N)
+    region_wants = []
+    for key in read_keys(shape, full=(TIER == "thorough" and len(hist["labels"]) <= 2)):
+        if all(isinstance(it, int) for it in key):
+            continue
+        try:
+            region_wants.append((key, R.read_region(key)))
+        except Disabled:
+            continue
     for nm, X in (("tensor", T), ("sptensor", S)):
         op = nm + ".__getitem__"
         seen_cls = set()
@@ -595,15 +666,10 @@ def check_reads(ctx, hist, T, S, R):
             rd(lambda: X == 0, (a == 0).astype(float), "derived_eq0")
             rd(lambda: X.innerprod(X), float(np.sum(a * a)), "derived_innerprod")
         # thorough: the full region alphabet on states up to depth 2, the quick one on the (many) depth-3 states
-        for key in read_keys(shape, full=(TIER == "thorough" and len(hist["labels"]) <= 2)):
-            try:
-                want = R.read_region(key)
-            except Disabled:
-                continue
+        for key, want in region_wants:
             nl = sum(1 for it in key if isinstance(it, list) and it[0] == "l")
-            forms = "list2" if nl >= 2 else ("list" if nl == 1 else "slice")
-            if all(isinstance(it, int) for it in key):
-                continue
+            stepped = any(isinstance(it, list) and it[0] == "s" and len(it) > 3 for it in key)
+            forms = "list2" if nl >= 2 else ("list" if nl == 1 else ("step" if stepped else "slice"))
             len1 = any(isinstance(it, list) and it[0] == "l" and len(it[1]) == 1 for it in key)
             rd(lambda key=key: X[_pykey(key)], want, "region_" + forms, key, shape_too=(nl == 0 or (nl == 1 and not len1)))
 
@@ -649,9 +715,15 @@ def explore(tier, seed, jobs, totals):
     MAXD = 3 if tier == "thorough" else 2
     BOUNDS[tier] = (f"initial states {INITS}; write alphabet {len(alphabet(2, tier))} labels (order 2) / "
                     f"{len(alphabet(3, tier))} (order 3) over the index space {{0,1,2}}^N (full subscripts incl. negative and "
-                    f"longer keys, regions of ints/bounded+unbounded slices/index lists, p x N subscript arrays incl. unsorted "
+                    f"longer keys, regions of ints/bounded+unbounded+stepped+reversed+relative-bound slices/index lists, p x N subscript arrays incl. unsorted "
                     f"and repeated rows and mixed zero/non-zero values, linear indices and slices; rhs zero/scalar/array/tensor); "
-                    f"depth {MAXD}; all reads (subscripts, negative, subscript arrays, linear, linear slices, regions) on every state")
+                    f"depth {MAXD}; all reads (subscripts, negative, subscript arrays, linear, linear slices, regions) on every state; "
+                    + ("region reads: full product of 8-11 key forms per mode (int, negative int, full / bounded / stepped / "
+                       "reversed / relative-bound slice, index lists) on states up to depth 2"
+                       if tier == "thorough" else
+                       "region reads: full product of the unit-step key forms per mode plus every stepped (::2, all modes) / "
+                       "reversed (::-1, first mode) / relative-bound (-1:, second mode) slice combined with full-slice / "
+                       "integer keys of the other modes, plus the all-stepped key"))
     inits = []
     for name in INITS:
         T, S, R = build_init(name)
